@@ -505,7 +505,8 @@ class UCSolutionEnumerator():
                 trials = []
             sustain_count = self._block.sustain_count(df)
             for i in range(start, end):
-                if df.applies_to_trial(i + 1):
+                # A sustained factor (outer block of a `Nest`) counts its own trials in groups of `sustain_count`
+                if df.applies_to_trial(i // sustain_count + 1):
                     trials.append(df.select_level_for_sample(i, run, sustain_count))
                 else:
                     trials.append(None)
